@@ -52,3 +52,5 @@ deriving DecidableEq, Repr, Inhabited
 def L4.eval (a : L4) : Nat := a.l0 + W * a.l1 + W^2 * a.l2 + W^3 * a.l3
 def L4.ok (a : L4) : Prop := a.l0 < W ∧ a.l1 < W ∧ a.l2 < W ∧ a.l3 < W
 def L4.ofNat (v : Nat) : L4 := ⟨v % W, v / W % W, v / W^2 % W, v / W^3 % W⟩
+
+instance (a : L4) : Decidable a.ok := by unfold L4.ok; infer_instance
